@@ -193,6 +193,13 @@ class err_handler(object):
         """
         #pdb.set_trace()
         if not self.seg_node_added:
+            if self.cur_st_node is None:
+                # a segment outside of any transaction set has no place in the
+                # set/segment error tree: record it on the interchange
+                if self.cur_isa_node is not None:
+                    self.cur_isa_node.add_error('024', 'Segment found outside of a transaction set')
+                self.seg_node_added = True
+                return
             self.cur_st_node.children.append(self.cur_seg_node)
             self.seg_node_added = True
 
